@@ -16,6 +16,7 @@ import Golib.Value.DecWF
 import Golib.Value.MapRefine
 import Golib.Value.Stream
 import Golib.Value.Local
+import Golib.Value.ApiFacts
 
 namespace C02
 open Value Prim
@@ -199,6 +200,70 @@ theorem duplicate_key_is_put :
     decode (encV (.map [([1], .null), ([1], .bool true)])) = some (.map [([1], .bool true)], []) := by
   rfl
 
+/-! ### the exported mutators and the map-only entry points (Golib/Value/Api.lean)
+
+  `WFV` asks for pairwise distinct keys.  That is no restriction on what the Go code can hold: whatever
+  history of Put / PutString / PutLong / NewList / PutAll / Clear (and look-ups in between) built a
+  MapValue or IntMapValue, and whatever history of Add / AddString / AddLong / Set / Clear built a
+  ListValue, the object's content is the fold of the history, its keys are distinct, and — the stored
+  payloads being things a Go value can hold — it round-trips.  The only residual hypothesis is that the
+  entry count fits the int64 count field. -/
+
+theorem map_history_roundtrip (ops : List (MOp Bytes)) (r : Bytes)
+    (hops : ∀ op ∈ ops, MOp.OK okBytes op) (hl : (MOp.final [] ops).length ≤ 9223372036854775807) :
+    decode (encV (.map (MOp.final [] ops)) ++ r) = some (.map (MOp.final [] ops), r) ∧
+    ((MOp.final [] ops).map (·.1)).Nodup :=
+  have h := entOK_final okBytes ops [] (entOK_nil okBytes) hops
+  ⟨decode_encV _ r (wfV_map_of _ h hl), h.1⟩
+
+theorem imap_history_roundtrip (ops : List (MOp Int)) (r : Bytes)
+    (hops : ∀ op ∈ ops, MOp.OK okI32 op) (hl : (MOp.final [] ops).length ≤ 9223372036854775807) :
+    decode (encV (.imap (MOp.final [] ops)) ++ r) = some (.imap (MOp.final [] ops), r) ∧
+    ((MOp.final [] ops).map (·.1)).Nodup :=
+  have h := entOK_final okI32 ops [] (entOK_nil okI32) hops
+  ⟨decode_encV _ r (wfV_imap_of _ h hl), h.1⟩
+
+theorem list_history_roundtrip (ops : List LOp) (r : Bytes)
+    (hops : ∀ op ∈ ops, LOp.OK op) (hl : (LOp.final [] ops).length ≤ 9223372036854775807) :
+    decode (encV (.list (LOp.final [] ops)) ++ r) = some (.list (LOp.final [] ops), r) :=
+  decode_encV _ r (wfV_list_of _ (listOK_final ops [] (by simp) hops) hl)
+
+/-- a history of calls on one object: the content is the fold of the calls, and every call's output is
+    its look-up on the state the calls before it left (what the driver computes and the harness compares) -/
+theorem map_history_outputs {K : Type} [DecidableEq K] (ops : List (MOp K)) :
+    MOp.run [] ops [] = (MOp.final [] ops, MOp.outputs [] ops) := by
+  rw [MOp.run_eq]; rfl
+
+theorem list_history_outputs (ops : List LOp) : LOp.run [] ops [] = (LOp.final [] ops, LOp.outputs [] ops) := by
+  rw [LOp.run_eq]; rfl
+
+/-- Get right after Put sees the value put; every other key is untouched (frame condition of Put) -/
+theorem get_sees_last_put {K : Type} [DecidableEq K] (s : List (K × Value)) (k : K) (v : Value) :
+    MOp.out (MOp.next s (.put k v)) (.get k) = some v ∧
+    ∀ k', k' ≠ k → MOp.out (MOp.next s (.put k v)) (.get k') = MOp.out s (.get k') :=
+  ⟨lookup_put_same s k v, fun k' h => lookup_put_other s k k' v h⟩
+
+/-- `WriteMapValue` and `IntMapValue.WriteValue` write what `WriteValue` writes -/
+theorem write_map_value_is_write_value (kvs : List (Bytes × Value)) (ikvs : List (Int × Value)) :
+    encMapValue kvs = encV (.map kvs) ∧ encIntMapValue ikvs = encV (.imap ikvs) :=
+  ⟨encMapValue_eq kvs, encIntMapValue_eq ikvs⟩
+
+/-- for ANY input: `ReadMapValue` returns a map exactly when `ReadValue` decodes a map — the same
+    entries, the same bytes left -/
+theorem read_map_value_iff_read_value (bs : Bytes) (kvs : List (Bytes × Value)) (r : Bytes) :
+    decMapValue bs = some (some kvs, r) ↔ decode bs = some (.map kvs, r) := decMapValue_iff bs kvs r
+
+/-- hence the map-only pair round-trips every well-formed map, with anything behind it -/
+theorem read_map_value_roundtrip (kvs : List (Bytes × Value)) (r : Bytes) (h : WFV (.map kvs)) :
+    decMapValue (encMapValue kvs ++ r) = some (some kvs, r) := by
+  rw [encMapValue_eq]
+  exact (decMapValue_iff _ kvs r).mpr (decode_encV _ r h)
+
+/-- what `ReadMapValue` does on any other first byte: nil, and exactly that one byte is gone (the body of
+    the other value is still in the stream — a caller that goes on reading is out of step) -/
+theorem read_map_value_other_type (t : Nat) (r : Bytes) (ht : t ≠ 80) : decMapValue (t :: r) = some (none, r) :=
+  decMapValue_other t r ht
+
 /-! non-vacuity: concrete non-trivial values are well-formed and do round-trip -/
 
 example : WFV (.list [.dec (-129), .map [([107], .text [104, 105]), ([], .imap [(-1, .f32 4286578688)])],
@@ -227,6 +292,25 @@ example : decV 9 ([70, 1, 2, 0, 10, 1] ++ [5, 5]) = some (.list [.null, .bool tr
 example : decodeMany 3 (encVs [.dec 5, .list [.null], .text [7]] ++ [9, 9]) = some ([.dec 5, .list [.null], .text [7]], [9, 9]) := by rfl
 example : foldPut ([] : List (Bytes × Value)) [([1], .null), ([2], .bool true), ([1], .dec 5)] = [([1], .dec 5), ([2], .bool true)] := by
   rfl
+/-- non-vacuity of the history theorems: a history with overwrite, Clear, refill, PutAll and look-ups -/
+example : MOp.run ([] : List (Bytes × Value))
+    [.put [1] (.dec 5), .putString [2] [104], .get [1], .put [1] .null, .clear, .size, .putLong [2] 7, .newList [1],
+     .putAll [([3], .bool true), ([2], .null)], .getBool [3], .containsKey [9]] [] =
+    ([([2], .null), ([1], .list []), ([3], .bool true)],
+     [none, none, some (.dec 5), none, none, some (.dec 0), none, none, none, some (.bool true), some (.bool false)]) := by rfl
+example : ∀ op ∈ ([.put [1] (.dec 5), .putString [2] [104], .clear, .putAll [([3], .bool true)]] : List (MOp Bytes)),
+    MOp.OK okBytes op := by
+  intro op h
+  simp only [List.mem_cons, List.not_mem_nil, or_false] at h
+  rcases h with rfl | rfl | rfl | rfl
+  · exact ⟨by decide, by decide⟩
+  · exact ⟨by decide, by decide⟩
+  · trivial
+  · intro p hp; simp only [List.mem_cons, List.not_mem_nil, or_false] at hp; subst hp; exact ⟨by decide, by decide⟩
+example : LOp.run [] [.add .null, .addString [7], .set 0 (.dec 1), .get 1, .clear, .addLong 3, .size] [] =
+    ([.dec 3], [none, none, none, some (.text [7]), none, none, some (.dec 1)]) := by rfl
+example : decMapValue ([80, 1, 1, 1, 107, 0] ++ [9]) = some (some [([107], .null)], [9]) := by rfl
+example : decMapValue [70, 1, 0] = some (none, [1, 0]) := by rfl
 example : Ctor.ofCode 47 = none := rfl     -- FLOAT_SUMMARY is declared but not implemented
 
 end C02
